@@ -1083,6 +1083,34 @@ func concFamily(seed uint64, ms int, workers int) {
 	run.Count("conc:runs")
 }
 
+// arrays around and beyond 2·MaxUint16 elements in the bodies that carry plain arrays (oracle only: ~1 MB each)
+func bigArrayCase(kind string, n int) {
+	line := fmt.Sprintf("bigcase %s %d", kind, n)
+	run.Count("bigarray:" + kind)
+	run.Safe(line, func() string {
+		wire, diff := sarama.VerifBigArrayCase(kind, n)
+		run.Case(fmt.Sprintf("%s: %d bytes on the wire", line, wire))
+		if diff == "rejected" {
+			run.Count("bigarray-rejected")
+			return ""
+		}
+		if diff != "" {
+			ioFail("big-array-roundtrip-differs:"+kind, line, fmt.Sprintf("%d elements: %s", n, diff))
+		}
+		return ""
+	})
+}
+
+func bigArrays() {
+	for _, kind := range []string{"DeleteTopicsRequest", "DeleteGroupsRequest", "DescribeGroupsRequest", "SaslHandshakeResponse",
+		"ConsumerGroupMemberMetadata", "ConsumerGroupMemberAssignment", "OffsetFetchRequest", "ListPartitionReassignmentsRequest",
+		"CreatePartitionsRequest"} {
+		for _, n := range []int{131070, 131071, 200000} {
+			bigArrayCase(kind, n)
+		}
+	}
+}
+
 // prefixes of valid encodings: partial trailing blocks / batches, short records (correspondence only)
 func truncations(r *hlib.Rand) {
 	for i := 0; i < 40; i++ {
@@ -1208,6 +1236,10 @@ func replayLine(l string) {
 		if len(f) == 4 {
 			seed, _ := strconv.ParseUint(f[1], 10, 64)
 			concFamily(seed, atoi(f[2]), atoi(f[3]))
+		}
+	case "bigcase":
+		if len(f) == 3 {
+			bigArrayCase(f[1], atoi(f[2]))
 		}
 	case "xcase":
 		if len(f) == 9 {
@@ -1362,5 +1394,6 @@ func main() {
 			}
 		}
 	}
+	bigArrays()
 	run.Finish(rule)
 }
